@@ -452,6 +452,7 @@ type vsRig struct {
 	sendRace         bool // let the worker complete while an update is being sent (scheduler lock released)
 	sendRaced        bool
 	inlineSync       bool
+	skipCacheLookups bool // Execute requests may set skip_cache_lookup
 	inUnlockedWindow bool
 	opLastDetach map[string]time.Time // operation name -> when a stream last left it
 
@@ -546,6 +547,10 @@ func (r *vsRig) execute(c *vsClient) *vsStream {
 		InstanceName:    c.instanceName,
 		ActionDigest:    c.digestProto(),
 		ExecutionPolicy: &remoteexecution.ExecutionPolicy{Priority: c.priority},
+	}
+	if r.skipCacheLookups {
+		// a hint about the Action Cache; it has no bearing on deduplication
+		req.SkipCacheLookup = rt.NondetBool("the request sets skip_cache_lookup")
 	}
 	rt.Go(func() {
 		r.captureExpectations(s)
